@@ -41,7 +41,17 @@ func newRig() *cpuRig {
 // register copies with garbage (states reachable by ordinary programs).
 func (g *cpuRig) loadPrim(s ref.State, stale bool, r *vf.Rng) {
 	c := &g.prim
-	c.Init(g.bus)
+	if c.Bus == g.bus && r.Intn(2) == 0 {
+		// reuse the CPU object the way a caller poking registers between runs does
+		// (System.SetPC does the same): every exported field is assigned, nothing is re-initialised,
+		// so state the interpreter hides outside its registers survives into this case
+		c.AllCycles, c.Cycles, c.Stopped, c.PRK, c.PPC, c.WDM = 0, 0, false, 0, 0, 0
+		c.OnWDM, c.OnPC = nil, nil
+		c.B, c.E, c.Interrupt = 0, 0, 0
+		c.StepInfo = cpu65c816.StepInfo{}
+	} else {
+		c.Init(g.bus)
+	}
 	c.PC, c.SP, c.RD, c.RDBR, c.RK = s.PC, s.S, s.D, s.DBR, s.K
 	c.N = s.P >> 7 & 1
 	c.V = s.P >> 6 & 1
